@@ -107,6 +107,11 @@ def maxToken : Nat := 65536
 def scanLines (s : Bytes) : List Bytes :=
   ((rawLines s).takeWhile (fun l => l.length < maxToken)).map dropCR
 
+/-- the same scan when the caller checks `scanner.Err()` afterwards (repaired `Reflog.load`,
+    `Ignore.load`): a line of 64 KiB or more is `ErrTooLong`, an error instead of a silent stop -/
+def scanLinesE (s : Bytes) : Option (List Bytes) :=
+  if (rawLines s).all (fun l => decide (l.length < maxToken)) then some ((rawLines s).map dropCR) else none
+
 end Bytes
 
 /-! ### hexadecimal and decimal -/
